@@ -31,7 +31,10 @@ pub fn main() {
             let kn: Vec<_> = all.into_iter().filter(|k| &k.property == id).collect();
             match props::build(id, tier, shard::seed(), &kn) {
                 Some(p) => {
-                    let out = vd.join(".work").join(format!("{}.{}.{}.json", id, tier.name(), i));
+                    let out = match args.get(6) {
+                        Some(p) if !p.is_empty() => PathBuf::from(p),
+                        _ => vd.join(".work").join(format!("{}.{}.{}.json", id, tier.name(), i)),
+                    };
                     shard::run_shard(&p, tier, i, n, &out, &kn)
                 }
                 None => 2,
@@ -102,6 +105,19 @@ fn replay(path: &PathBuf) -> i32 {
         }
     };
     let prop = doc["property"].as_str().unwrap_or("?").to_string();
+    // a counterexample found in the overflow-checking build is replayed by that build
+    let unit = doc["violation"]["unit"].as_str().unwrap_or("").to_string();
+    let me = std::env::current_exe().map(|p| p.display().to_string()).unwrap_or_default();
+    if unit.starts_with("ovf:") && me.contains("/release/") {
+        let other = me.replace("/release/", "/ovf/");
+        return match std::process::Command::new(&other).args(["replay", &path.display().to_string()]).status() {
+            Ok(s) => s.code().unwrap_or(2),
+            Err(e) => {
+                println!("cannot run {}: {}", other, e);
+                2
+            }
+        };
+    }
     match doc["engine"].as_str() {
         Some("e1") => {
             let v = &doc["violation"];
@@ -118,6 +134,8 @@ fn replay(path: &PathBuf) -> i32 {
             ctx.frozen = false;
             let all = known::load(&shard::verif_dir().join("KNOWN_FINDINGS.txt")).unwrap_or_default();
             ctx.known_keys = all.iter().filter(|k| k.is_known && k.property == prop).map(|k| k.key.clone()).collect();
+            ctx.panic_only = prop == "C15";
+            ctx.cycles_only = prop == "C20";
             if let Some(seq) = v["case"]["sequence"].as_array() {
                 // a recorded history: replay exactly the same actions in lock step with the reference
                 let acts: Vec<super::e1::Act> = seq
